@@ -1,6 +1,6 @@
 (* C18 property theorems. This file contains only statements closed by
    [exact lemma] and Print Assumptions. *)
-From V Require Import Common.Base C18.Pieces C18.PiecesProofs C18.Hash C18.HashProofs C18.XXHash C18.NameProofs.
+From V Require Import Common.Base C18.Pieces C18.PiecesProofs C18.Hash C18.HashProofs C18.XXHash C18.NameProofs C18.LoopProofs.
 
 (* breakOutputIntoPieces terminates on every output (the model's fuel always
    suffices) and re-inserting the unique keys into the pieces gives back
@@ -53,6 +53,16 @@ Theorem dfs_visits_reachable_once : forall chunks root,
   exists o, final_order chunks root = Some o /\ NoDup o /\ (forall x, In x o <-> reach chunks root x).
 Proof. exact dfs_visits_reachable_once_all. Qed.
 Print Assumptions dfs_visits_reachable_once.
+
+(* The real loop shares ONE visited array between all roots and tells them
+   apart by the stamp ^uint32(chunkIndex): for fewer than 2^32 chunks that is
+   the same as a fresh traversal per root (chunks without [hash] are skipped). *)
+Theorem shared_visited_array_is_transparent : forall (H : bytes -> bytes) public asset_rel chunks,
+  wf_graph chunks -> Z.of_nat (length chunks) < 4294967296 ->
+  final_streams H public asset_rel chunks =
+  Some (map (expected H public asset_rel chunks) (seq 0 (length chunks))).
+Proof. exact final_streams_fresh. Qed.
+Print Assumptions shared_visited_array_is_transparent.
 
 (* hashWriteLengthPrefixed: the stream written for a list of items (each
    shorter than 2^32) determines the list - boundaries matter. *)
